@@ -742,6 +742,13 @@ def _expand_chunk(task):
         cand = [("axis", r, ax) for r in sorted(view0.leaves) for ax in (0, 1)]
         if compound:
             cand += [("refine", r) for r in sorted(view0.leaves)] + [("uniform",), ("uniform_space",)]
+            # marking-driven bisection as a terminal operation (C02 quantifies over it): indicator families with ties / zeros
+            nl = len(view0.leaves)
+            if nl <= DORFLER_TERMINAL_MAX_LEAVES:
+                cand += [("dorfler", "isotropic", tuple(1 for _ in range(nl)), 0.5),
+                         ("dorfler", "anisotropic", tuple((1, 1) for _ in range(nl)), 0.5),
+                         ("dorfler", "anisotropic", tuple((3, 0) if i == 0 else (0, 0) for i in range(nl)), 0.5),
+                         ("dorfler", "anisotropic", tuple((i % 3, (i + 1) % 2) for i in range(nl)), 0.7)]
         for op in cand:
             run = Run.__new__(Run)
             run.init, run.view, run.history, run.broken = init, view0, list(ops), False
@@ -765,6 +772,9 @@ def _expand_chunk(task):
     fd = Findings()
     fd.merge_fails(fails)
     return fam, new, [f for lst in fd.fails.values() for f in lst], evals
+
+
+DORFLER_TERMINAL_MAX_LEAVES = 6
 
 
 def _stops(clause, own):
@@ -1391,7 +1401,7 @@ def _sample_histories(res, k=3):
 def _run_structure(chk, prop, tier, seed, pool, log):
     """C02 / C10: exhaustive BFS + random histories, class invariant + minimality after every operation."""
     own = C02_CLAUSES if prop == "C02" else C10_CLAUSES
-    compound_nr = tuple(REAL_NAME[k] + "/no-raise" for k in ("refine", "uniform", "uniform_space"))
+    compound_nr = tuple(REAL_NAME[k] + "/no-raise" for k in ("refine", "uniform", "uniform_space", "dorfler"))
 
     def mine(clause):
         return clause in own or (prop == "C02" and clause in compound_nr)
@@ -1404,7 +1414,7 @@ def _run_structure(chk, prop, tier, seed, pool, log):
         fd.mark_checked(fam, own + (compound_nr if prop == "C02" else ()), r["evals"])
         chk.add_bounded("{}/bounded/bfs/{}".format(prop, fam), r["evals"], r["nontrivial"],
                         "all sequences of refine_axis(leaf, ax) up to depth {} from initial mesh {} (time {} space {}{}); "
-                        "plus refine(leaf), uniform_refine, uniform_refine_space as terminal operations on every "
+                        "plus refine(leaf), uniform_refine, uniform_refine_space and four Doerfler steps (tied / zero / patterned indicators, states with <= 6 leaves) as terminal operations on every "
                         "state".format(r["depth"], fam, [str(t) for t in FAMILIES[fam].time],
                                        [str(x) for x in FAMILIES[fam].space], " glued" if FAMILIES[fam].glued else ""),
                         "breadth-first, every leaf x both axes, states de-duplicated by exact leaf set; one evaluation = "
